@@ -770,7 +770,7 @@ func (w *L1World) fabricate(b *wBridge, n int) []Withdrawal {
 			// is paid like anybody else (and nobody else is). Escrow addresses are not drawn here: a leaf re-committed under
 			// another bridge would then legitimately pay into a sibling's escrow, which the isolation clause reads as interference
 			wd.To = mon.Pick(w.rng, []sdk.AccAddress{authtypes.NewModuleAddress(authtypes.FeeCollectorName), authtypes.NewModuleAddress("distribution"),
-				authtypes.NewModuleAddress("gov"), authtypes.NewModuleAddress(ophosttypes.ModuleName)}).String()
+				authtypes.NewModuleAddress("gov"), authtypes.NewModuleAddress(ophosttypes.ModuleName), recipient32a, recipient32b}).String()
 			w.feat["module_recipient"]++
 		}
 		b.nextL2++
@@ -1482,3 +1482,11 @@ func short(s string) string {
 	}
 	return s
 }
+
+// 32-byte accounts (the length of module-derived addresses) that are nobody's escrow: paid like a 20-byte account.
+var (
+	h32a         = ref.Sha3_256([]byte("verif/32-byte-recipient/a"))
+	h32b         = ref.Sha3_256([]byte("verif/32-byte-recipient/b"))
+	recipient32a = sdk.AccAddress(h32a[:])
+	recipient32b = sdk.AccAddress(append(make([]byte, 12), h32b[:20]...)) // twelve zero bytes in front of 20 others
+)
